@@ -70,11 +70,6 @@ func (m *monitor) checkReplayedState(n *simNode) {
 		e.Fail("C15", "replay-regressed-endheight-marker-missing", "node %d restarted at %d/%d/%d; the previous incarnation had started without #ENDHEIGHT %d in its WAL (crash between saving that block and logging the marker) and had reached %d/%d/%d, none of which the WAL can give back", n.idx, rs.Height, rs.Round, rs.Step, d.h-1, d.h, d.r, d.step)
 		return
 	}
-	if (rs.Round < d.r || (rs.Round == d.r && rs.Step < d.step)) && d.afterRepair {
-		// known finding (KNOWN_FINDINGS.txt): see there
-		e.Fail("C15", "replay-step-regressed-after-repair-double-replay", "node %d restarted at %d/%d/%d; the previous incarnation, which had repaired its WAL at start and therefore replayed it twice, had reached %d/%d/%d", n.idx, rs.Height, rs.Round, rs.Step, d.h, d.r, d.step)
-		return
-	}
 	if rs.Round < d.r || (rs.Round == d.r && rs.Step < d.step) {
 		e.Fail("C15", "replay-step-regressed", "node %d restarted at %d/%d/%d although its synced WAL had reached %d/%d/%d", n.idx, rs.Height, rs.Round, rs.Step, d.h, d.r, d.step)
 	}
